@@ -11,7 +11,7 @@ CLAIMED = {
              "has relationship-machinery provenance; (R2.3) every part constructed outside the loader is named by an allocator "
              "and reaches relate_to in its function or in all typed callers; (R2.4) drop_rel sites remove the referencing element; "
              "(R2.5) constructed content types map back to the constructing class in the registry; (R2.6) the writer derives "
-             "content types and members from one part sequence, writes rels items and package rels. NOT decided: closure of the "
+             "content types and members from one part sequence, writes rels items and package rels. Also: drop_rel is called while the reference is still in the XML (its counting rule `_rel_ref_count < 2` is checked); no lazyproperty memoises a collection built by iterating the XML tree or a live proxy collection; R2.7 = the content-type rules of C01 R1.1. NOT decided: closure of the "
              "part graph under arbitrary histories, reference counting of r:embed in drop_rel, equality of re-opened content.",
         technique="static analysis: field-dependency analysis of memoised getters, provenance (taint) of relationship ids, "
                   "typed caller analysis of part construction, table agreement",
@@ -58,7 +58,7 @@ CLAIMED = {
              "factories, found through the template engine) is fed at all 22 typed call sites by an allocator or the id of the "
              "element being replaced; the n+1 slide part name is only reachable through Slides.add_slide after "
              "rename_slide_parts on the same list; id attributes are never re-written; slide-id bounds agree with ST_SlideId "
-             "and the schema. NOT decided: turbo-mode caching across proxies, id-based lookups after later additions.",
+             "and the schema. Also: a first-gap scan must enumerate sorted(<integers>) (not document order, not strings), and a `not in P` candidate scan must try at least |P|+1 candidates (counted as a polynomial in len(P)). NOT decided: turbo-mode caching across proxies, id-based lookups after later additions.",
         technique="static analysis: idiom recognition per return path of allocators, population-scope check of xpath literals, "
                   "typed caller analysis of id parameters located through template hole positions, dominance/order of renaming",
         design="DESIGN.md §4 C06",
@@ -72,7 +72,7 @@ CLAIMED = {
              "rewriters remove/insert the same data children through generated schema-positioned inserters and touch nothing "
              "else (R7.3); idx/order come from series.index resp. max-over-all-plots+1 (R7.4); c:ptCount holes count the "
              "sequence the sibling c:pt loop iterates (R7.5, category counts by stated premise). Known findings: negative "
-             "axis-id literals, c:smooth in radar series. NOT decided: values read back through the API, date serials, "
+             "axis-id literals, c:smooth in radar series. Also R7.6 (date-system constants vs the standard, shared with C08 R8.4) and R7.7 (per chart type, chart writer and series rewriter use the same series-writer class). NOT decided: values read back through the API, date serials, "
              "formatting survival under replace_data histories.",
         technique="static analysis: abstract evaluation of the string-building writers per chart type, XML skeleton language "
                   "inclusion in dml-chart.xsd automata, structural twin/rewriter/allocator comparison",
@@ -86,7 +86,7 @@ CLAIMED = {
              "the rest are counted as not analysed; (R9.2) convert_to_xml and convert_from_xml of every simple type, Adjustment "
              "normalisation included, are evaluated to affine forms and must be reciprocal (rounding mode = quantum recorded); "
              "(R9.3) an OptionalAttribute's declared default equals the schema default whenever the schema declares one, compared "
-             "through value interpretation; (R9.4) refusals in setters and their helpers raise TypeError/ValueError. NOT decided: "
+             "through value interpretation; (R9.4) refusals in setters and their helpers raise TypeError/ValueError. Also R9.5: presence is not decided by truthiness in value-selecting expressions unless the tested value is boolean, its falsy value equals the fall-back, or it is an object without __len__/__bool__ (unknown types are refused). NOT decided: "
              "persistence across save/re-open, independence of sibling properties, placeholder inheritance.",
         technique="static analysis: typed delegation-chain resolution of getter/setter XML locations, affine evaluation of "
                   "conversion functions, table comparison of declared vs schema defaults",
@@ -102,7 +102,7 @@ CLAIMED = {
              "(append/insert/addprevious/addnext/insert_element_before), get_or_add overrides guarded, choice groups equal to "
              "the schema choice, and the structural shape of the generic mechanism (get-or-add guarded, remove removes all, "
              "change-to removes the group then adds). The bound is sufficient because all content models in scope are "
-             "single-occurrence (checked per type each run). NOT decided: cardinality under histories of several additions.",
+             "single-occurrence (checked per type each run). Also R10.excl: at every call site of a generated adder, the declared schema-exclusive siblings of the added child were removed on the same receiver by a dominating statement, or the parent was created in the same function / by every caller. NOT decided: cardinality under histories of several additions.",
         technique="static analysis: declaration tables x XSD content-model automata (language membership over enumerated "
                   "sibling contexts), structural AST recognition of the insertion mechanism, typed call-site analysis of raw lxml insertions",
         design="DESIGN.md §4 C10, appendix B.1-B.2",
@@ -132,7 +132,7 @@ CLAIMED = {
              "of schema types named CT_*Properties or the text-body scaffolding types. All 500+ public read accessors of the proxy "
              "and part layers (getters, __iter__/__getitem__/__len__/__contains__, get/index/iter_*/has_*/is_*) must be PURE, "
              "ADDS-EMPTY, named by the statement, or say in their docstring that they create content; the save path must be PURE. "
-             "22 undocumented writing accessors are carried as known findings. NOT decided: byte identity of repeated saves.",
+             "22 undocumented writing accessors are carried as known findings. Self-calls are resolved through the class hierarchy (an accessor defined in a base class is charged with what a subclass hook does). NOT decided: byte identity of repeated saves.",
         technique="static analysis: interprocedural effect (purity) analysis on a typed call graph, schema-typed tolerance for "
                   "empty containers, docstring vocabulary for documented exceptions",
         design="DESIGN.md §4 C12, appendix B.4",
@@ -151,7 +151,7 @@ CLAIMED = {
              "External iff is_external; Id/Type/Target/TargetMode as in opc-relationships.xsd), loading keeps every "
              "relationship except internal ones whose target is absent; (R1.4) the loader builds each part from its own name, that "
              "name's content type and that name's bytes, and Part / XmlPart / every load() override pass them through unchanged. "
-             "NOT decided: byte identity, XML equivalence, idempotence of a second save, relative-reference arithmetic (C19).",
+             "Also: .get/.pop/.setdefault/.update on a CaseInsensitiveDict only with a lowered key; relationship ids do not pass through a container keyed by a non-injective function; R1.5 relative references come from posixpath.relpath / join + normalisation, with no string-prefix test or slicing by the length of a directory name. NOT decided: byte identity, XML equivalence, idempotence of a second save, relative-reference arithmetic (C19).",
         technique="static analysis: constant folding of the Default table, two-way-split and conflict-guard check of the writer "
                   "decision, reader precedence order, visit-once idiom check on the generators, positional field pass-through "
                   "tracing between serialiser, element factory and loader, attribute names against the OPC schema",
@@ -167,7 +167,7 @@ CLAIMED = {
              "literal is LF, existing paragraphs are removed first, exactly one paragraph is added and filled per segment, the "
              "frame reader joins every paragraph with LF, and cell / shape text delegate to the text frame; paragraph-level "
              "assignment is clear() then append_text(), and clear() removes exactly the content children, so a:pPr and "
-             "a:endParaRPr stay. NOT decided: whitespace survival through the parser's remove_blank_text heuristics, identity "
+             "a:endParaRPr stay. The escape class is accepted as a regular-expression class or as a str.translate table; the break loop is evaluated as a decision table over (first item?, empty item?). NOT decided: whitespace survival through the parser's remove_blank_text heuristics, identity "
              "after save and re-open, astral code points.",
         technique="static analysis: regular-expression parse trees (re._parser) turned into character sets and compared with the "
                   "sets the statement names, constant folding of split literals and read-back symbols, statement-order and "
@@ -185,7 +185,7 @@ CLAIMED = {
              "points before the series; the data attribute cached next to a reference in the XML writers (numRef_xml(ref, fmt, "
              "values), values_ref with the value points, name_ref with the name) must be the attribute written into those cells; "
              "series.<x>_ref -> chart_data.<x>_ref -> workbook_writer.<x>_ref keep their name; each chart data kind builds its own "
-             "workbook writer; replace_data rewrites XML and workbook from the same object. NOT decided: column letters beyond Z "
+             "workbook writer; replace_data rewrites XML and workbook from the same object. Also: the epochs and the 1900 leap-year threshold of Category._excel_date_number equal the standard's 1900/1904 date systems (constants folded, threshold accepted as a day count or as a date); for every chart type the chart writer and the series rewriter build series XML with the same series-writer class; the date system of the cache equals the workbook's (new charts: 1900 on both sides; replace_data on a c:date1904=1 chart is a known finding); a date label is reduced the same way for cache and cell (datetime time-of-day: known finding). NOT decided: column letters beyond Z "
              "(_column_reference loop), date serial numbers, values as stored by XlsxWriter, series.index == enumeration index.",
         technique="static analysis: format-string decoding and abstract evaluation of cell addresses in a polynomial normal-form "
                   "domain (helpers inlined, loop variables as symbols), reference/data pairing read from the XML writers' call "
@@ -225,7 +225,7 @@ CLAIMED = {
              "report a missing member as KeyError; api.Presentation raises ValueError for a main part whose content type is not "
              "a presentation main type before using it; unregistered content types fall back to Part; both content-type tables are "
              "case-insensitive with guarded lookups; missing core properties are replaced by a related default part; slide parts "
-             "are renamed slide<i+1> for the i-th rId of the id list, unconditionally. NOT decided: which exception escapes "
+             "are renamed slide<i+1> for the i-th rId of the id list, unconditionally. Also R16.6: bare `raise Exception` exits on these paths are unreachable because the candidate scan before them tries at least |population|+1 candidates; R16.3 includes the reader-side content-type rules shared with C01. NOT decided: which exception escapes "
              "lxml/zipfile for arbitrary corrupt bytes; combinations of irregularities at run time.",
         technique="static analysis: membership-guard dominance analysis for keyed dereferences, who-may-call rule closing the "
                   "interprocedural case, path enumeration of the reader factory, refusal-before-use ordering, exception types "
@@ -241,7 +241,7 @@ CLAIMED = {
              "the digest of every part reachable by an image (media/video) relationship of the whole package; image and media "
              "parts are constructed nowhere else; sha1/ext/content_type/size/dpi of an Image depend (transitively, by field-read "
              "analysis) on the stored bytes only, never the file name; the bytes read are handed unchanged through from_file -> "
-             "from_blob -> __init__ -> part. NOT decided: byte equality at run time, DPI normalisation and scaling arithmetic, "
+             "from_blob -> __init__ -> part. Also: the part returned by get_or_add_* originates only from the package-wide scan or a new part (no private memo); R15.4 the native width depends on (horizontal dpi, pixel width) and the height on (vertical dpi, pixel height), by component-wise dependency analysis. NOT decided: byte equality at run time, DPI normalisation and scaling arithmetic, "
              "Pillow's own format detection.",
         technique="static analysis: constant folding and chaining of the format/extension/content-type/registry tables, "
                   "lookup-dominates-create check, who-may-construct rule, transitive field-read dependency analysis, "
@@ -256,7 +256,7 @@ CLAIMED = {
              "flow position-by-position through add_placeholder and new_placeholder_sp into the same-named attribute stores of "
              "the new p:ph, whose readers read those attributes; Slides.add_slide creates the part from the layout's part, "
              "clones placeholders, then registers the slide id with the new relationship id, and p:sldId is appended last "
-             "(decided with the C10 procedure); placeholder names come from the part-wide uniqueness loop. NOT decided: "
+             "(decided with the C10 procedure); placeholder names come from the part-wide uniqueness loop. Also R13.5: the layout-to-master inheritance table maps every layout placeholder type onto a kind a slide master carries; the pass-through stores are unconditional; the cloneable sequence is not memoised. NOT decided: "
              "inherited geometry values, one-to-one correspondence for exotic layouts.",
         technique="static analysis: constant folding of type sets, positional parameter-flow tracing across three call levels, "
                   "call-order check, C10 placement decision for p:sldId",
@@ -291,7 +291,7 @@ CLAIMED = {
              "part is one of the reader's templates and its suffix denotes UTC; unparseable timestamps read as None; "
              "created/modified carry xsi:type=dcterms:W3CDTF; +hh:mm is subtracted and -hh:mm added on hours and minutes and "
              "the offset pattern's width equals the length the reader tests; revision accepts only int >= 1 (ValueError "
-             "otherwise, before mutation) and reads back as an int. NOT decided: datetime arithmetic at the range ends, years "
+             "otherwise, before mutation) and reads back as an int. Also R18.5 (shared with C16 R16.4): a package without core properties gains a related default part (/docProps/core.xml, core-properties content type, new cp:coreProperties); the 255 limit is measured on the characters of the string; the offset correction is evaluated under both signs as a polynomial in the hours and minutes fields. NOT decided: datetime arithmetic at the range ends, years "
              "below 1000, equality after save and re-open.",
         technique="static analysis: three-layer name-agreement table against the OPC schema, refusal-before-mutation ordering, "
                   "format-string width and template-membership computation, regex width via re._parser, sign analysis of the "
